@@ -11,22 +11,23 @@ Local Open Scope Z_scope.
 Section AbfSystem.
   Context {T : Type} (O : NumOps T).
 
-  (* common input of a step: the variables' values, the engine's force on each, the Jacobian force of each *)
-  Definition abf_sys_in : Type := (list T * list T * list T)%type.
+  (* common input of a step: the variables' values, the engine's force on each, the Jacobian force of each, and
+     whether the ABF bias applies its force at this step (applyBias; a script may switch it) *)
+  Definition abf_sys_in : Type := (list T * list T * list T * bool)%type.
 
   (* force of all restraints on variable k *)
   Definition other_force (os : list (@RestraintModel.rout T)) (k : nat) : T :=
     fold_left (fun a o => nadd O a (nth k (RestraintModel.o_forces o) (n0 O))) os (n0 O).
 
   Definition wire_abf (i : abf_sys_in) (os : list (@RestraintModel.rout T)) : @ABFModel.abf_in T :=
-    let xs := fst (fst i) in
-    ABFModel.mkIn xs (snd (fst i)) (map (other_force os) (seq 0 (length xs))) (snd i) false.
+    let xs := fst (fst (fst i)) in
+    ABFModel.mkIn xs (snd (fst (fst i))) (map (other_force os) (seq 0 (length xs))) (snd (fst i)) false (snd i).
 
   (* the restraints' input is the list of values *)
   Definition abf_sys_machine' :=
     cascade_machine
       (mkMachine (m_init (list_machine (restraint_machine O)))
-                 (fun c s it rel (i : abf_sys_in) => m_step (list_machine (restraint_machine O)) c s it rel (fst (fst i)))
+                 (fun c s it rel (i : abf_sys_in) => m_step (list_machine (restraint_machine O)) c s it rel (fst (fst (fst i))))
                  (m_save (list_machine (restraint_machine O)))
                  (m_after_save (list_machine (restraint_machine O)))
                  (m_load (list_machine (restraint_machine O))))
@@ -81,7 +82,7 @@ Section AbfSystem.
       f_equal. clear. revert cl. induction sl as [|s r IH]; intros cl; destruct cl as [|c rc]; cbn [map2r]; auto.
       rewrite IH. reflexivity.
     - pose proof (list_resumable _ _ _ _ _ _ _ (restraint_resumable O)) as HL.
-      pose proof (premap_resumable _ (fun i : abf_sys_in => fst (fst i)) _ _ _ _ _ _ HL) as HL'.
+      pose proof (premap_resumable _ (fun i : abf_sys_in => fst (fst (fst i))) _ _ _ _ _ _ HL) as HL'.
       pose proof (abf_resumable O) as HA.
       exact (resumable_resumes _ _ _ _ _ _ _
                (cascade_resumable _ _ wire_abf _ _ _ _ _ _ _ _ _ _ _ _ wire_eq0 wire_eq HL' HA)).
